@@ -19,8 +19,18 @@ VARIABLE tid
 Runs(r) == 1..Len(r.obs.runs)
 Failed(run) == \E i \in 1..Len(run.states) : run.states[i] = "FAILED"
 IsPrefix(p, str) == Len(str) >= Len(p) /\ SubSeq(str, 1, Len(p)) = p
+\* population clause: c of K p-values are at or below alpha = 1/den.  "Not systematically small": c stays within five standard
+\* deviations of the binomial mean, (den c - K)^2 <= 25 (den - 1) K, or within an absolute slack of 3 for small samples
+Within(c, K, den) == \/ den * c <= K + 3 * den
+                     \/ (c <= 400 /\ (den * c - K) * (den * c - K) <= 25 * (den - 1) * K)
+VPop(r) == IF r.raised # "none" THEN "Total"
+           ELSE IF r.obs.nan # 0 THEN "PValueIsANumber"
+           ELSE IF ~Within(r.obs.le_1_20, r.args.K, 20) \/ ~Within(r.obs.le_1_100, r.args.K, 100) \/ ~Within(r.obs.le_1_1000, r.args.K, 1000)
+                THEN "PValuesNotSystematicallySmall"
+           ELSE "ok"
 Verdict(r) ==
-  IF r.raised # "none" THEN "Total"
+  IF r.ev = "pop" THEN VPop(r)
+  ELSE IF r.raised # "none" THEN "Total"
   \* single-run rule of every structure
   ELSE IF \E k \in Runs(r) : \E i \in 1..Len(r.obs.runs[k].states) :
             (r.obs.runs[k].states[i] = "FAILED") # r.obs.runs[k].below[i] THEN "FailedIffBelowFailLevel"
